@@ -21,6 +21,7 @@ static std::vector<float> all_data_of(const std::vector<std::vector<float>>& dat
 enum Kind { KICKY, KICKX, RFLIN, RFSIN, DRIFT, FP3, FP4, IDENT, WAKE, DYNLIN, DYNSIN, NKIND };
 static const char* KN[] = {"KickMap.y", "KickMap.x", "RFKickMap.linear", "RFKickMap.sin", "DriftMap", "FokkerPlanck.3", "FokkerPlanck.4", "Identity", "WakePotentialMap", "DynamicRF.linear", "DynamicRF.sin"};
 
+static bool CLAMP = false;  // the 'clamped interpolation' flag handed to every map constructor (both sides of the comparison get the same)
 static bool HIST = false;   // generic kick maps of the multi-bunch side are given two other fields before the one under test
 static int FPT = 3;   // Fokker-Planck variant (0 none, 1 damping only, 2 diffusion only, 3 full) for the FP kinds
 struct Built { std::shared_ptr<SourceMap> m; psptr in, out; std::shared_ptr<ElectricField> f; std::shared_ptr<Impedance> z; };
@@ -37,7 +38,7 @@ static Built build(int kind, unsigned n, unsigned nb, unsigned it, int var, cons
     const float angle = 2 * M_PI / (var == 2 ? 24 : 60);
     switch (kind) {
     case KICKY: case KICKX: {
-        auto km = std::make_shared<KickMap>(B.in, B.out, itt, false, kind == KICKY ? KickMap::Axis::y : KickMap::Axis::x, nullptr);
+        auto km = std::make_shared<KickMap>(B.in, B.out, itt, CLAMP, kind == KICKY ? KickMap::Axis::y : KickMap::Axis::x, nullptr);
         std::vector<float> off; for (unsigned b = 0; b < nb; b++) off.insert(off.end(), fields[b].begin(), fields[b].end());
         if (HIST && nb > 1) {
             // the map has a past: another full per-bunch field, then a field of one block only (serving the first bunch; what that does to the others is
@@ -46,14 +47,14 @@ static Built build(int kind, unsigned n, unsigned nb, unsigned it, int var, cons
             std::vector<float> one(fields[0]); if (kind == KICKY) { km->swapOffset(one); km->apply(); }
         }
         km->swapOffset(off); B.m = km; break; }
-    case RFLIN: B.m = std::make_shared<RFKickMap>(B.in, B.out, angle, 5e8f, itt, false, nullptr); break;
+    case RFLIN: B.m = std::make_shared<RFKickMap>(B.in, B.out, angle, 5e8f, itt, CLAMP, nullptr); break;
     case RFSIN: {
         const double frf = 5e8, bl2phase = 1e-3 / physcons::c * frf * 2 * M_PI, dE = B.in->getDelta(1) * 6.1e5, revpart = 0.01;
         const double Veff = std::tan(angle) * dE / (B.in->getDelta(0) * revpart * bl2phase), V0 = 0.1 * Veff, VRF = std::sqrt(Veff * Veff + V0 * V0);
-        B.m = std::make_shared<RFKickMap>(B.in, B.out, (float)revpart, (float)VRF, (float)frf, (float)V0, itt, false, nullptr); break; }
+        B.m = std::make_shared<RFKickMap>(B.in, B.out, (float)revpart, (float)VRF, (float)frf, (float)V0, itt, CLAMP, nullptr); break; }
     case DRIFT: {
         std::vector<float> slip = {angle, var == 1 ? 0.3f * angle : 0.f, var == 2 ? -0.2f * angle : 0.f};
-        B.m = with_scratch(slip, [&](const std::vector<float>& sl) { return std::make_shared<DriftMap>(B.in, B.out, sl, 1.3e9f, itt, false, nullptr); }); break; }
+        B.m = with_scratch(slip, [&](const std::vector<float>& sl) { return std::make_shared<DriftMap>(B.in, B.out, sl, 1.3e9f, itt, CLAMP, nullptr); }); break; }
     case FP3: case FP4:
         B.m = std::make_shared<FokkerPlanckMap>(B.in, B.out, n, n, (FokkerPlanckMap::FPType)FPT, FokkerPlanckMap::FPTracking::none,
                                                 var == 2 ? 1e-2 : 1e-3, kind == FP3 ? FokkerPlanckMap::DerivationType::two_sided : FokkerPlanckMap::DerivationType::cubic, nullptr);
@@ -63,14 +64,14 @@ static Built build(int kind, unsigned n, unsigned nb, unsigned it, int var, cons
         const double frf = 5e8, bl2phase = 1e-3 / physcons::c * frf * 2 * M_PI, dE = B.in->getDelta(1) * 6.1e5, revpart = 0.01;
         const double Veff = std::tan(angle) * dE / (B.in->getDelta(0) * revpart * bl2phase), V0 = 0.1 * Veff, VRF = std::sqrt(Veff * Veff + V0 * V0);
         std::shared_ptr<DynamicRFKickMap> d;
-        if (kind == DYNLIN) d = std::make_shared<DynamicRFKickMap>(B.in, B.out, n, n, angle, revpart, frf, 0.f, 0.f, 0.02f, 0.13, 3, itt, false, nullptr);
-        else d = std::make_shared<DynamicRFKickMap>(B.in, B.out, n, n, revpart, VRF, frf, V0, 0.f, 0.f, 0.02f, 0.13, 3, itt, false, nullptr);
+        if (kind == DYNLIN) d = std::make_shared<DynamicRFKickMap>(B.in, B.out, n, n, angle, revpart, frf, 0.f, 0.f, 0.02f, 0.13, 3, itt, CLAMP, nullptr);
+        else d = std::make_shared<DynamicRFKickMap>(B.in, B.out, n, n, revpart, VRF, frf, V0, 0.f, 0.f, 0.02f, 0.13, 3, itt, CLAMP, nullptr);
         d->apply();   // entry 0 (zero modulation); the caller's apply() runs with entry 1
         B.m = d; break; }
     case WAKE: {
         B.z = std::make_shared<ConstImpedance>(N, 1e12f, impedance_t(200.f, var == 1 ? 90.f : 0.f));
         B.f = std::make_shared<ElectricField>(B.in, B.z, buckets, spacing, nullptr, 9e6, 0.01f, 3e-3, 1.3e9, 4.7e-4, 4e-8);
-        auto wm = std::make_shared<WakePotentialMap>(B.in, B.out, B.f.get(), itt, false, nullptr);
+        auto wm = std::make_shared<WakePotentialMap>(B.in, B.out, B.f.get(), itt, CLAMP, nullptr);
         wm->update(); B.m = wm; break; }
     }
     return B;
@@ -90,6 +91,7 @@ int main(int argc, char** argv) {
         // var 3: rows of one bunch displaced beyond the grid (y-kick fields); for the Fokker-Planck kinds var selects the variant {none, damping, diffusion, full}
         if (var == 3 && kind != KICKY && kind != FP3 && kind != FP4) continue;
         FPT = var;
+        CLAMP = ((n + nb + it + var + dv + kind) % 2) == 1;
         if ((kind == FP3 || kind == FP4 || kind == IDENT) && it > 1) continue;   // interpolation order is not a parameter of these
         std::string kase = mcx::Desc()("map", KN[kind])("n", n)("nb", nb)("it", it)("var", var)("data", dv).str();
         if (!R.mine(kase)) continue;
